@@ -87,3 +87,91 @@ PROPS["C14"] = {
         "any Err result counts as 'returned as an error' for write/flush failures and displaced frames (the variant is not checked)",
     ],
 }
+
+PROPS["C07"] = {
+    "scenario": "S-BUILDER",
+    "level": "exploration",
+    "runs": {"quick": 300000, "thorough": 10000000},
+    "crash_clause": "C07.accept",
+    "rule": "one run = one seeded tape: 1..3 source packets (same/different device and error type, 1..13 frames, occasionally 256+ and thorough 4096 frames) fragmented by the library, a first frame offered to the constructor (source start frame, synthetic start frame announcing 1..4096 frames multi or single, or a non-start frame), then the remaining frames through a faulty channel (drop, duplicate, reorder, flag/address/start/multi/data-length rewrite, id rewritten to next+-1, +k, announced, announced+-1, random; foreign frames injected; late frames after completion), every add_frame compared with the acceptance model and the observers re-read after every step. Non-trivial = a frame was rejected, a packet completed, or the constructor refused a non-start frame. Distinct = distinct event-log hashes among those.",
+    "state_measure": "abstract state = bucketed accepted count x bucketed remaining count x whether the offered frame was acceptable",
+    "probes": ["frame_rejected", "accepted_after_rejection", "completed", "constructor_refused_non_start", "announced_over_256",
+               "single_start_announcing_more", "rejected_out_of_order", "rejected_single_frame", "rejected_too_many", "rejected_wrong_type",
+               "rejected_address", "chan_dropped", "chan_duplicated", "chan_reordered", "chan_rewritten", "chan_id_rewritten", "chan_foreign_injected"],
+    "components": [
+        "real: /repo/src/packet.rs PacketBuilder::{new, add_frame, build, frames_left, frame_count, expected_frame_count}, Packet::to_frames (as frame source)",
+        "stub: the frame channel (drop/duplicate/reorder/rewrite/inject) and the acceptance model (written from the property statement)",
+    ],
+    "assumptions": COMMON_ASSUMPTIONS + [
+        "only well-formed frames are offered (<= 8 data bytes, id < 4096, unused bytes zero, last-frame id iff start flag), as frame decoders produce them",
+        "a rejection reason must be one that truly applies, not the one the current guard order yields; id-based reasons apply to non-start frames only",
+    ],
+}
+
+NODE_COMPONENTS = [
+    "real: /repo/src/protocol.rs (Protocol::tick, send_packet, add_/remove_packet_handler, exchange_packet(s), handle_packet, id allocation)",
+    "real: event decoders used as exchange filters (C18), event encoders as packet source",
+    "stub: the Interface under Protocol (scripted queue of receive results and send outcomes logging every call in one global event sequence), the application (handlers, operation histories)",
+]
+NODE_ASSUMPTIONS = COMMON_ASSUMPTIONS + [
+    "InterfaceError values are compared by debug image (the type has no PartialEq)",
+    "handlers transmit only to other devices from inside a delivery (as the property states); handler invocation order within one delivery is not constrained",
+    "attribution: when an expected handler does not fire, the registry itself is asked (remove of its id) to decide between a dispatch defect (C15/C16) and a registry defect (C17)",
+]
+
+PROPS["C15"] = {
+    "scenario": "S-NODE",
+    "level": "exploration",
+    "runs": {"quick": 200000, "thorough": 8000000},
+    "crash_clause": "C15.fanout",
+    "rule": "one run = one seeded tape: own address (incl. 0xffff, 0x0000), a history of 1..24 (thorough 1..80) operations - add (capture-all or not; plain or transmitting handler), remove (live / stale / never issued id), tick against a drawn link result (packet to own / broadcast / other address, data or error packet; nothing; each of 18 link error values; optionally a second packet queued behind), send - each registry operation followed by a reveal delivery on both paths. Every tick is judged: at most one packet taken, fan-out multiset, result, re-entrant transmissions. Non-trivial = a probe fired (broadcast delivery, capture-all-only delivery, link error, nothing, id reuse, re-entrant send, queued second packet ...). Distinct = distinct event-log hashes among those.",
+    "state_measure": "abstract state = bucketed handler count x bucketed capture-all count x last operation kind",
+    "probes": ["broadcast_packet_delivered", "foreign_packet_to_capture_all_only", "tick_on_link_error", "tick_on_nothing", "own_is_broadcast",
+               "second_packet_left_queued", "reentrant_send_with_other_handlers", "handler_sent_from_delivery", "id_reused_after_removal", "handler_removed"],
+    "components": NODE_COMPONENTS,
+    "assumptions": NODE_ASSUMPTIONS,
+}
+PROPS["C16"] = dict(PROPS["C15"], **{
+    "crash_clause": "C16.tx",
+    "rule": "same histories as C15; every send_packet is judged: destination own address => every local handler exactly once and on the link iff the own address is broadcast; otherwise on the link exactly once, unmodified, no local handler; the link's send outcome (ok or one of 18 error values) is what the caller gets. Non-trivial = a routing probe fired. Distinct = distinct event-log hashes among those.",
+    "probes": ["loopback_only", "loopback_and_transmit_own_is_broadcast", "broadcast_destination_transmitted", "transmitted_to_other",
+               "send_error_returned", "handler_sent_from_delivery", "id_reused_after_removal"],
+})
+PROPS["C17"] = dict(PROPS["C15"], **{
+    "crash_clause": "C17.unique",
+    "rule": "registry-heavy histories (40-80% add/remove: remove from the middle, id reuse, removal of stale and never-issued ids) interleaved with deliveries; after every registry operation a reveal step sends one own-address packet through tick and one through the loop-back path of send_packet and determines which handlers are live; removed handlers must never fire again on any delivery; at the end every id ever seen is removed once more and must answer Ok / NoSuchHandler as the model says. Non-trivial = a handler was removed, an unregistered id was removed, or an id was reused. Distinct = distinct event-log hashes among those.",
+    "probes": ["handler_removed", "remove_of_unregistered_id", "id_reused_after_removal", "id_reuse_with_neighbours", "reveal_steps"],
+})
+PROPS["C18"] = {
+    "scenario": "S-NODE(exchange)",
+    "level": "exploration",
+    "runs": {"quick": 150000, "thorough": 6000000},
+    "crash_clause": "C18.first",
+    "rule": "one run = one seeded tape: own address, 0..3 handlers, 1..2 (thorough 1..4) exchanges, each with: single- or multi-reply form, capture mode, one of the 16 event kinds as requested type, a request addressed to own / broadcast / another device, an optional send error, an incoming queue of 0..12 entries (valid encodings of the requested and of other kinds, error-flagged, wrongly sized, addressed to own / broadcast / others, explicit 'nothing received'), optionally ending in one of 18 link errors, optionally with later traffic behind the stopping point. The request routing is compared with an ordinary send of the same request on an identically built twin node; the result, the wait callback's count and position in the global event sequence, and the entries left on the link are compared with the model. Non-trivial = any exchange probe fired. Distinct = distinct event-log hashes among those.",
+    "state_measure": "abstract state = requested kind x form x capture mode x bucketed queue length x (link error, timeout)",
+    "probes": ["exchange_first_match", "exchange_multiple_replies", "exchange_empty_list", "exchange_timeout", "exchange_link_error",
+               "exchange_send_error", "exchange_skipped_nonmatching", "exchange_skipped_wrong_address", "exchange_left_later_traffic_queued",
+               "exchange_capture_all", "own_is_broadcast"],
+    "components": NODE_COMPONENTS,
+    "assumptions": NODE_ASSUMPTIONS + [
+        "'decodes as the requested kind' is defined by the library's own decoder for that kind (its correctness is C03/C05/C11's subject); packets shorter than 6 bytes are not shown to the data-event decoder and undefined message-value images are not shown to the message decoder (both crash/UB today, C05's subject)",
+    ],
+}
+PROPS["C01"] = {
+    "scenario": "S-E2E",
+    "level": "exploration",
+    "runs": {"quick": 45000, "thorough": 2000000},
+    "crash_clause": "C01.ok",
+    "rule": "one run = one seeded tape: link kind, polling schedule variant (as C13, on both directions), node addresses (distinct incl. 0xffff / 0x0000, or both broadcast), 0..4 handlers on B and 0..3 on A with drawn capture-all flags, in a third of the runs B's handlers answer with acknowledgements through the protocol handle they are given; 1..12 (thorough 1..60) events over all 16 kinds with arbitrary field values (data events up to the 4096-frame limit) addressed to the peer, broadcast or a third device; sends interleaved with ticks of both nodes, every device read answered from the tape. After every step every handler log must be a prefix of its expectation and the newest entry must decode (with the decoder of the sent kind) to the sent value; at quiescence logs equal expectations. Non-trivial = multi-frame event, several events in flight, mixed handler table, third-device event, traffic in both directions or a broadcast node address. Distinct = distinct event-log hashes among those.",
+    "state_measure": "abstract state = bucketed units in flight A->B x B->A x last top-level action",
+    "probes": ["multi_frame_event", "several_events_in_flight", "mixed_handler_table", "event_for_third_device",
+               "both_directions_carried_traffic", "broadcast_node_address", "frame_id_over_255", "handler_sent_from_delivery"],
+    "components": [
+        "real: Protocol on both nodes, the real Can/Usart/Serial interface under each, Packet::to_frames, PacketBuilder, both frame codecs, all 16 event encoders and decoders, cobs",
+        "stub: CAN controller (bxcan::Can substitute), USART peripheral, OS serial port, the wire (reliable FIFO per direction), the application",
+    ],
+    "assumptions": COMMON_ASSUMPTIONS + [
+        "the wire is reliable (hostile wires are C06's subject); two nodes have distinct addresses unless both are broadcast; events addressed to the sender itself are excluded (C16's loop-back rule)",
+        "padding bytes of MessageValue's in-memory image (uninitialised memory copied out by the encoder) are overwritten with tape-drawn bytes before the packet enters the simulation",
+    ],
+}
